@@ -27,6 +27,9 @@ def units(tier):
         for i in range(n):
             us.append(("cluster", kind, i))
         us.append(("general", kind))
+        if kind == "greg":
+            for part in range(3):
+                us.append(("noise", kind, part))
         for i in range(len(FAR_YEARS)):
             us.append(("far", kind, i))
         for rep in pools.REPS:
@@ -77,8 +80,8 @@ def check_pair(ctx, kind, c, x, y, do_inverse=True):
         return
     why = _shape_ok(d)
     want = x.inst - y.inst
-    if why and (exact or abs(want) > TOL or why != "mixed signs"):
-        # (float noise around a zero difference can borrow a whole day: not judged outside the exact domain)
+    if why:
+        # (always judged: whatever the float noise, a difference is written with one sign and in-range components)
         ctx.violation("shape", dict(sig, why=why), case, "days/h/m/s only, |h|<24, |m|,|s|<60, one sign", str(d))
     _, _, sec, _ = impl.alpha_duration(d)
     if sec != want and (exact or abs(sec - want) > TOL):
@@ -199,6 +202,16 @@ def run_unit(unit, ctx):
         for x in pool:
             for y in pool:
                 check_pair(ctx, kind, c, x, y)
+    elif u == "noise":
+        # two decimal spellings of one instant, and a decimal form against the same time in whole seconds (+-): the
+        # shape of the difference (one sign, components in range) must hold whatever the float noise; its length to 1 us
+        pairs = [(a, b) for a, b in collide.noise_pairs(unit[2])] + [(a, b) for a, b, _ in collide.decimal_vs_whole_pairs(unit[2])]
+        for xd, yd in pairs:
+            pool = build_pool(ctx, kind, [(xd, None, False), (yd, None, False)])
+            if len(pool) == 2:
+                ctx.state_count += 1
+                check_pair(ctx, kind, c, pool[0], pool[1])
+                check_pair(ctx, kind, c, pool[1], pool[0])
     elif u == "far":
         i = unit[2]
         mine = build_pool(ctx, kind, _far_entries(kind, FAR_YEARS[i]))
